@@ -85,6 +85,7 @@ class Crate:
         return self.spec.get("externs", {}).get(key)
 
     def lean_fn_name(self, key):
+        key = re.sub(r"@\w+", "", key)     # `Type@Trait::f` (a trait impl) is named like an inherent method
         if "::" in key:
             t, f = key.split("::")[0], key.split("::")[-1]
             st = self.structs.get(t)
@@ -100,7 +101,7 @@ class Emitter:
         self.fn = crate.fns[key]
         self.file = crate.fn_file[key]
         self.opts = opts or {}
-        self.self_type = key.split("::")[0] if "::" in key else None
+        self.self_type = key.split("::")[0].split("@")[0] if "::" in key else None
         self.scopes = []        # list of dict name -> {'mut':bool,'ty':rust type or None}
         self.tmp = 0
         self.loop_stack = []    # entries: {'muts': [...], 'ret': bool}
@@ -217,7 +218,7 @@ class Emitter:
                 a = args[0]
                 if a["k"] == "tpath" and a["segs"][-1][0] == "u8": return "Bytes"
                 return f"(List {self.lean_type(a)})"
-            if name == "HashMap": return f"(List ({self.lean_type(args[0])} × {self.lean_type(args[1])}))"
+            if name in ("HashMap", "AHashMap", "BTreeMap"): return f"(List ({self.lean_type(args[0])} × {self.lean_type(args[1])}))"
             if name == "Option": return f"(Option {self.lean_type(args[0])})"
             if name == "Box": return self.lean_type(args[0])
             if name == "Result": return self.lean_type(args[0]) if args else "Unit"
@@ -308,6 +309,9 @@ class Emitter:
             if key in self.c.fns or self.c.extern(key): return key
         if len(segs) == 1:
             if segs[0] in self.c.fns or self.c.extern(segs[0]): return segs[0]
+        if len(segs) >= 2 and segs[-2][:1].islower():
+            # `module::function(..)`
+            if segs[-1] in self.c.fns or self.c.extern(segs[-1]): return segs[-1]
         return None
 
     def resolve_method(self, e):
@@ -558,7 +562,7 @@ class Emitter:
         i = e["i"]
         line = e["line"]
         ty = self.strip_ref(self.typeof(e["e"]))
-        if ty is not None and ty["k"] == "tpath" and ty["segs"][-1][0] == "HashMap":
+        if ty is not None and ty["k"] == "tpath" and ty["segs"][-1][0] in ("HashMap", "AHashMap", "BTreeMap"):
             p2, kt = self.val(i)
             return p + p2, f"(← Rs.mapIdx {self.atom(t)} {self.atom(kt)} {self.site(line, 'map-index')})"
         if i["k"] == "range":
@@ -762,7 +766,13 @@ class Emitter:
                     rest = rest.replace("{self}", self.atom(ts_self)) if use_recv else rest
                     for i, t in enumerate(ts):
                         rest = rest.replace("{" + str(i) + "}", self.atom(t))
-                return pre, "PURE:" + term, ["MUTSELF", recv, rest]
+                margs = []
+                for ai, atmpl in sorted((ext.get("mut_args") or {}).items()):
+                    v = atmpl.replace("{self}", self.atom(ts_self)) if use_recv else atmpl
+                    for i, t in enumerate(ts):
+                        v = v.replace("{" + str(i) + "}", self.atom(t))
+                    margs.append((args[int(ai)], v))
+                return pre, "PURE:" + term, ["MUTSELF", recv, rest, margs]
             if not ext.get("monadic", ext.get("result", False)):
                 return pre, "PURE:" + term, []
             return pre, term, []
@@ -798,6 +808,9 @@ class Emitter:
             if two in ("Vec::new", "String::new"): return [], "[]" if two == "Vec::new" else '""'
             if two == "Vec::with_capacity":
                 p, t = self.val(e["args"][0]); return p, f"(Rs.withCapacity {self.atom(t)})"
+            if two in ("cmp::min", "cmp::max") and len(e["args"]) == 2:
+                p, ts = self.vals(e["args"])
+                return p, f"({two[5:]} {self.atom(ts[0])} {self.atom(ts[1])})"
             if two == "Context::new":
                 return [], "([] : Bytes)"
             if two == "Cursor::new":
@@ -822,7 +835,16 @@ class Emitter:
             if len(wb) > 2 and wb[2] is not None:
                 resv = self.fresh("r")
                 pre.append(f"let {resv} := {wb[2]}")
-            return pre + self.assign_place(wb[1], term[5:], e["line"]), resv
+            # new values of `&mut` arguments are computed from the OLD state, then everything is stored
+            stores = []
+            for place, v in (wb[3] if len(wb) > 3 else []):
+                tv = self.fresh("a")
+                pre.append(f"let {tv} := {v}")
+                stores.append((place, tv))
+            pre += self.assign_place(wb[1], term[5:], e["line"])
+            for place, tv in stores:
+                pre += self.assign_place(place, tv, e["line"])
+            return pre, resv
         if term.startswith("PURE:"):
             return pre, term[5:]
         if not wb:
@@ -925,7 +947,15 @@ class Emitter:
             # extern `&mut self` method returning a Result: its `res` template is the Result (a Res term) computed from
             # the old receiver; bind it, then store the new receiver
             r = self.fresh("r")
-            pre = list(pre) + [f"let {r} := {wb[2]}"] + self.assign_place(wb[1], term[5:], e["line"])
+            pre = list(pre) + [f"let {r} := {wb[2]}"]
+            stores = []
+            for place, v in (wb[3] if len(wb) > 3 else []):
+                tv = self.fresh("a")
+                pre.append(f"let {tv} := {v}")
+                stores.append((place, tv))
+            pre += self.assign_place(wb[1], term[5:], e["line"])
+            for place, tv in stores:
+                pre += self.assign_place(place, tv, e["line"])
             return pre, r
         if term.startswith("PURE:"): term = f"(pure {self.atom(term[5:])})"
         if wb:
@@ -1043,6 +1073,18 @@ class Emitter:
             inner = dict(s); inner["init"] = blk["tail"]
             return lines + self.stmt_let(inner)
         init0 = s["init"]
+        ch = self.entry_chain(init0) if pat["k"] == "pident" else None
+        if ch is not None:
+            mp, key, dflt = ch
+            pk, kt = self.val(key)
+            k = self.fresh("k")
+            pre = pk + [f"let {k} := {kt}"]
+            pd, dt = self.entry_default(dflt, k)
+            pm, cur = self.val(mp)
+            pre += pd + pm + self.assign_place(mp, f"(Rs.mapEnsure {self.atom(cur)} {k} {self.atom(dt)})", s["line"])
+            if not hasattr(self, "aliases"): self.aliases = {}
+            self.aliases[pat["name"]] = (mp, k)
+            return pre
         if s["ty"] is not None and init0["k"] == "mcall" and init0["name"] in ("expect", "unwrap") and init0["recv"]["k"] == "mcall" \
                 and init0["recv"]["name"] == "try_into":
             # `let x: &[u8; N] = slice.try_into().expect(..)`: Err unless the slice has exactly N elements
@@ -1171,9 +1213,68 @@ class Emitter:
     def boolify(self, e, t):
         return t
 
+    def entry_chain(self, x):
+        """`MAP.entry(k).or_insert_with_key(|k| ctor)` (and friends): (map place, key expr, default-value expr) or None"""
+        while x["k"] in ("paren",): x = x["e"]
+        if x["k"] != "mcall" or x["name"] not in ("or_insert_with_key", "or_insert_with", "or_insert", "or_default"): return None
+        ent = x["recv"]
+        if ent["k"] != "mcall" or ent["name"] != "entry" or len(ent["args"]) != 1: return None
+        key = ent["args"][0]
+        if x["name"] == "or_default":
+            dflt = None
+        elif x["name"] == "or_insert":
+            dflt = x["args"][0]
+        else:
+            cl = x["args"][0]
+            if cl["k"] != "closure": return None
+            dflt = ("closure", cl, x["name"] == "or_insert_with_key")
+        return ent["recv"], key, dflt
+
+    def entry_default(self, dflt, keyterm):
+        if dflt is None: return [], "default"
+        if isinstance(dflt, tuple):
+            _, cl, with_key = dflt
+            self.push_scope()
+            pre = []
+            if with_key and cl["params"]:
+                nm = self.pat_atom(cl["params"][0][0], True)
+                pre.append(f"let {nm} := {keyterm}")
+            p, t = self.val(cl["body"])
+            self.pop_scope()
+            return pre + p, t
+        return self.val(dflt)
+
     def stmt_assign(self, e):
         op = e["op"]
         line = e["line"]
+        # `map.entry(k).or_insert_with_key(..).field op= v`  and  `alias.field op= v` for `let alias = map.entry(k)…`
+        lhs = e["l"]
+        if lhs["k"] == "field":
+            ch = self.entry_chain(lhs["e"])
+            alias = None
+            if ch is None and lhs["e"]["k"] == "path" and len(lhs["e"]["segs"]) == 1:
+                alias = getattr(self, "aliases", {}).get(lhs["e"]["segs"][0])
+            if ch is not None or alias is not None:
+                fld = lname(lhs["name"])
+                pre = []
+                if ch is not None:
+                    mp, key, dflt = ch
+                    pk, kt = self.val(key)
+                    k = self.fresh("k")
+                    pre += pk + [f"let {k} := {kt}"]
+                    pd, dt = self.entry_default(dflt, k)
+                    pm, cur = self.val(mp)
+                    pre += pd + pm
+                    pre += self.assign_place(mp, f"(Rs.mapEnsure {self.atom(cur)} {k} {self.atom(dt)})", line)
+                else:
+                    mp, k = alias
+                pr, rt = self.val(e["r"])
+                if op == "=": newv = rt
+                elif op == "+=": newv = f"(__e.{fld} + {self.atom(rt)})"
+                elif op == "-=": raise Unsupported("-= through a map entry")
+                else: raise Unsupported(f"{op} through a map entry")
+                pm2, cur2 = self.val(mp)
+                return pre + pr + pm2 + self.assign_place(mp, f"(Rs.mapModify {self.atom(cur2)} {k} (fun __e => {{ __e with {fld} := {newv} }}))", line)
         if op == "=":
             p, t = self.val(e["r"])
             return p + self.assign_place(e["l"], t, line)
@@ -1274,7 +1375,13 @@ class Emitter:
                         seen_err = True
                     if re.fullmatch(r"Res\.ok (_|[a-z_][A-Za-z0-9_']*)", p): seen_ok_all = True
                     lines.append(f"| {p} =>")
-                    lines += indent(self.arm_body(a["body"], mode), 2)
+                    bind = []
+                    ap = a["pat"]
+                    if p == "Res.err" and ap["k"] == "ptstruct" and ap["ps"] and ap["ps"][0]["k"] in ("pident",):
+                        # the error value itself is not modelled (error kinds are collapsed): bind the name to unit
+                        self.declare(ap["ps"][0]["name"], mut=False, ty=N("tpath", 0, segs=[("ErrorValue", [])]))
+                        bind = [f"let {lname(ap['ps'][0]['name'])} := ()"]
+                    lines += indent(bind + self.arm_body(a["body"], mode), 2)
                 self.pop_scope()
             lines.append("| Res.panic __p => Res.panic __p")
             return lines
@@ -1431,7 +1538,8 @@ class Emitter:
         st = self.state_tuple(muts)
         if ret:
             lines.append(f"match {r} with")
-            lines.append(f"| Rs.Flow.ret __v => return {self.wrap_ret('__v')}" if not self.loop_stack else f"| Rs.Flow.ret __v => return Rs.Flow.ret __v")
+            # the returned value was already paired with the `&mut` state at the `return` inside the loop
+            lines.append(f"| Rs.Flow.ret __v => return __v" if not self.loop_stack else f"| Rs.Flow.ret __v => return Rs.Flow.ret __v")
             if muts:
                 names = [self.fresh("n") for _ in muts]
                 tup = names[0] if len(names) == 1 else "(" + ", ".join(names) + ")"
@@ -1644,6 +1752,8 @@ class Emitter:
                 self.declare("self", mut=False, ty=st)
         for p in f["params"]:
             pat = p["pat"]
+            if pat["k"] == "pwild":
+                pat = N("pident", p["line"], name=f"_p{len(params)}", mut=False, byref=False)
             if pat["k"] != "pident": raise Unsupported("pattern parameter")
             n = pat["name"]
             ty = p["ty"]
@@ -1742,7 +1852,7 @@ BUILTIN_METHODS = {
     "rev": "{self}.reverse", "sum": "{self}.sum", "map": _closure_map,
     "is_some": "{self}.isSome", "is_none": "{self}.isNone", "unwrap_or": "({self}.getD {0})",
     "contains": "({self}.contains {0})", "min": "(min {self} {0})", "max": "(max {self} {0})",
-    "position": "{self}.pos", "finish": "(H {self})", "ip": "{self}", "as_secs": "{self}.secs", "subsec_nanos": "{self}.nanos", "get": "{self}[{0}]?", "concat": "{self}.flatten", "starts_with": "({0}.isPrefixOf {self})",
+    "position": "{self}.pos", "finish": "(H {self})", "values": "(List.map Prod.snd {self})", "keys": "(List.map Prod.fst {self})", "ip": "{self}", "as_secs": "{self}.secs", "subsec_nanos": "{self}.nanos", "get": "{self}[{0}]?", "concat": "{self}.flatten", "starts_with": "({0}.isPrefixOf {self})",
 }
 
 
